@@ -22,6 +22,7 @@ LAYOUTS = [
     ('global 2..13/touching ends', (2, 13), 2, (2, 5), (10, 13), 'isa'),
     ('global 2..13/source zones', (2, 13), 3, (4, 9), (8, 13), 'source'),
     ('default-global/top of space', None, 0, (24, 31), (28, 31), 'source'),
+    ('default-global/one shared address, one-address zone', None, 0, (4, 8), (8, 8), 'isa'),
 ]
 
 
@@ -67,8 +68,8 @@ def included(i):
 def meta(tier):
     q = tier == 'quick'
     return {
-        'rule': 'every program over the 15-symbol zone alphabet up to the depth bound under 6 zone layouts (predefined / created in '
-                'source, default / redefined GLOBAL, nested / overlapping / adjacent zones, zones at the top of a 5-bit address '
+        'rule': 'every program over the 15-symbol zone alphabet up to the depth bound under 7 zone layouts (predefined / created in '
+                'source, default / redefined GLOBAL, nested / overlapping / adjacent zones, zones sharing exactly one address, a one-address zone, zones at the top of a 5-bit address '
                 'space), plus every ill-formed declaration from the grid; expected: image of the reference layout, or rejection '
                 'iff a byte would lie outside its selected zone or GLOBAL (or two lines collide); non-trivial = program that '
                 'switches zone at least once and emits bytes in two zones, or that is rejected for leaving a zone; '
